@@ -8,5 +8,4 @@ def run(ctx):
                         "the empty graph is not driven (whether [[]] is its maximal clique is a convention)"]
 
 def replay(ctx, rp):
-    vlib.log("replay: the file holds the concrete input; re-run ./check C18")
-    return 2
+    return vlib.replay_any(ctx, rp)
